@@ -35,9 +35,17 @@ import (
 type Item struct {
 	In  int
 	Seq int
+	// Live is true for every item a producer wrote; the zero value of the type
+	// (what a receive from a closed channel yields) is recognisably not an item.
+	Live bool
 }
 
-func (it Item) VrtKey() uint64 { return vrt.Mix(0x17e, uint64(it.In), uint64(it.Seq)) }
+func (it Item) VrtKey() uint64 {
+	if !it.Live {
+		return 0x17d
+	}
+	return vrt.Mix(0x17e, uint64(it.In), uint64(it.Seq))
+}
 
 func (it Item) String() string { return fmt.Sprintf("%d.%d", it.In, it.Seq) }
 
@@ -55,8 +63,39 @@ func lowDivider(priorities []uint, dividend uint, distribution map[uint]uint) {
 	distribution[priorities[len(priorities)-1]] += dividend - base*n
 }
 
+// strayDivider obeys the sum rule but hands one unit (when there is more than
+// one per listed priority) to a priority value that has no input - a legal, if
+// odd, custom divider: the unit is simply never used.
+func strayDivider(priorities []uint, dividend uint, distribution map[uint]uint) {
+	if len(priorities) == 0 || distribution == nil {
+		return
+	}
+	rest := dividend
+	if dividend > uint(len(priorities)) {
+		distribution[strayKey]++
+		rest--
+	}
+	div2.Fair(priorities, rest, distribution)
+}
+
+const strayKey = 999
+
+// tableDivider ignores the list it is given and always spreads the dividend
+// evenly over a fixed table: the configured priorities plus one value that has
+// no input. It obeys the sum rule (the only obligation C01 puts on a divider).
+func tableDivider(table []uint) divFn {
+	return func(priorities []uint, dividend uint, distribution map[uint]uint) {
+		if distribution == nil {
+			return
+		}
+		div2.Fair(table, dividend, distribution)
+	}
+}
+
 func dividerOf(name string) divFn {
 	switch name {
+	case "stray":
+		return strayDivider
 	case "fair":
 		return divFn(div2.Fair)
 	case "rate":
@@ -70,6 +109,17 @@ func dividerOf(name string) divFn {
 // v1 dividers have a different signature (return the map, create it if nil).
 func v1Divider(name string) prio1.Divider {
 	switch name {
+	case "stray":
+		return func(priorities []uint, dividend uint, distribution map[uint]uint) map[uint]uint {
+			if len(priorities) == 0 {
+				return nil
+			}
+			if distribution == nil {
+				distribution = make(map[uint]uint, len(priorities))
+			}
+			strayDivider(priorities, dividend, distribution)
+			return distribution
+		}
 	case "fair":
 		return prio1.FairDivider
 	case "rate":
@@ -277,7 +327,11 @@ func (m *prioMon) OnEvent(w *vrt.World, ev *vrt.Event) {
 			m.total--
 			m.released++
 			if m.inflight[p] < 0 {
-				w.Fail("harness: release of priority %d without an item in flight", p)
+				// a release for an item that was never delivered (e.g. a phantom Handle call)
+				m.f.fail("C02", "priority %d released although no item of it is in flight: something was handled that was never delivered", p)
+				m.f.fail("C01", "priority %d released although no item of it is in flight (the in-flight accounting is broken)", p)
+				m.inflight[p] = 0
+				m.total++
 			}
 		}
 	}
@@ -313,6 +367,10 @@ func (m *prioMon) onDeliver(w *vrt.World, ev *vrt.Event) {
 		m.fullStates++
 	}
 	// C02 / C17: tag and order
+	if !it.Live {
+		m.f.fail("C02", "the zero value of the item type was delivered: nothing like it was ever written to an input")
+		return
+	}
 	if it.In < 0 || it.In >= len(m.nextSeq) {
 		m.f.fail("C02", "item %v was never written to any input", it)
 		return
@@ -398,7 +456,11 @@ func newPrio(c Cfg, w *vrt.World) *explore.Instance {
 	w.Monitors = append(w.Monitors, m)
 	// oracle share: the configured divider applied by the harness
 	m.share = map[uint]uint{}
-	dividerOf(c.Div)(c.P, c.H, m.share)
+	if c.Div == "table" {
+		tableDivider(append([]uint{c.P[0] + 1}, c.P...))(c.P, c.H, m.share)
+	} else {
+		dividerOf(c.Div)(c.P, c.H, m.share)
+	}
 	m.saturated = c.Mode == "saturate" || c.Mode == "endless"
 
 	var newErr error
@@ -442,13 +504,13 @@ func newPrio(c Cfg, w *vrt.World) *explore.Instance {
 			m.origin[i] = st
 			inMap[p] = ch
 			if c.Mode == "endless" {
-				vrt.Endless(ch, Item{i, 0})
+				vrt.Endless(ch, Item{i, 0, true})
 				continue
 			}
 			if n := nOf(i); n <= capOf(i) {
 				items := make([]Item, n)
 				for k := range items {
-					items[k] = Item{i, k}
+					items[k] = Item{i, k, true}
 				}
 				vrt.Prefill(ch, items...)
 				m.written[i] = n
@@ -462,7 +524,13 @@ func newPrio(c Cfg, w *vrt.World) *explore.Instance {
 				}
 			}
 		}
-		divw = &dividerWrap{m: m, inner: dividerOf(c.Div), fault: c.Fault}
+		inner := divFn(nil)
+		if c.Div == "table" {
+			inner = tableDivider(append([]uint{c.P[0] + 1}, c.P...))
+		} else {
+			inner = dividerOf(c.Div)
+		}
+		divw = &dividerWrap{m: m, inner: inner, fault: c.Fault, lax: c.Div == "table"}
 		var env prioEnv
 		switch c.Disc {
 		case "v2":
@@ -483,6 +551,9 @@ func newPrio(c Cfg, w *vrt.World) *explore.Instance {
 			spawnErrReader(m, errs)
 		case "s2":
 			handle := func(it Item) {
+				if !it.Live {
+					m.f.fail("C02", "Handle invoked with the zero value of the item type: no such item was ever written")
+				}
 				m.handling++
 				m.handled[it]++
 				if uint(m.handling) > c.H {
@@ -532,6 +603,9 @@ func newPrio(c Cfg, w *vrt.World) *explore.Instance {
 			spawnErrReader(m, errs)
 		case "s1":
 			handle := func(ctx vcontext.Context, it Item) {
+				if !it.Live {
+					m.f.fail("C02", "Handle invoked with the zero value of the item type: no such item was ever written")
+				}
 				m.handling++
 				m.handled[it]++
 				if uint(m.handling) > c.H {
@@ -579,7 +653,7 @@ func newPrio(c Cfg, w *vrt.World) *explore.Instance {
 				for k := 0; k < n; k++ {
 					vrt.Mark(uint64(k))
 					m.written[i] = k + 1
-					vrt.Send(ch, Item{i, k})
+					vrt.Send(ch, Item{i, k, true})
 				}
 				vrt.Mark(uint64(n) + 1000)
 				if c.Mode != "open" && c.Mode != "saturate" && c.Mode != "alone" {
@@ -824,9 +898,9 @@ func (m *prioMon) terminal(w *vrt.World, out vrt.Outcome, totalItems int, divw *
 	if c.Disc == "s2" || c.Disc == "s1" {
 		for i := range m.P {
 			for k := 0; k < m.written[i]; k++ {
-				if m.handled[Item{i, k}] != 1 {
+				if m.handled[Item{i, k, true}] != 1 {
 					if want(c, "C02") {
-						return fmt.Sprintf("C02: Handle was invoked %d times for item %d.%d", m.handled[Item{i, k}], i, k)
+						return fmt.Sprintf("C02: Handle was invoked %d times for item %d.%d", m.handled[Item{i, k, true}], i, k)
 					}
 				}
 			}
@@ -896,7 +970,8 @@ func (m *prioMon) stateOracle(w *vrt.World) string {
 		return ""
 	}
 	m.fullStates++
-	for p, s := range m.share {
+	for _, p := range m.cfg.P {
+		s := m.share[p]
 		if uint(m.inflight[p]) != s {
 			return fmt.Sprintf("C05: no release is outstanding and every input has data waiting, but priority %d holds %d handlers instead of its share %d (in flight %v, shares %v, H=%d)", p, m.inflight[p], s, m.inflight, m.share, m.H)
 		}
@@ -910,6 +985,7 @@ type dividerWrap struct {
 	m     *prioMon
 	inner divFn
 	fault bool
+	lax   bool
 }
 
 func (d *dividerWrap) check(priorities []uint, dividend uint, distribution map[uint]uint, v2 bool) {
@@ -1102,7 +1178,7 @@ func (m *prioMon) spawnScript(c Cfg, v1 *v1Ctl, inputs []chan Item) {
 		m.origin[idx] = st
 		items := make([]Item, n)
 		for k := range items {
-			items[k] = Item{idx, k}
+			items[k] = Item{idx, k, true}
 		}
 		vrt.Prefill(ch, items...)
 		vrt.CloseNow(ch)
